@@ -31,7 +31,12 @@ theorem steps_ok (cs : List Cls) (rt : CState) (l : Cls) (e0 : Eff) (hl : Leaf c
       | none =>
         simp only [Option.map_none]
         obtain ⟨f, hf, hget⟩ := h2 hdd hexc
-        have hct := ctorVal_plain cs rt rv a f hl.inv hk hf
+        have hinit : f.init = true := by
+          unfold isDefineDefault at hdd
+          rw [hl.last, hf] at hdd
+          simp only [Bool.and_eq_true] at hdd
+          exact hdd.2
+        have hct := ctorVal_plain cs rt rv a f hl.inv hk hf hinit
         have hmem : a.name ∈ ps := by
           obtain ⟨hfm, hfn⟩ := fieldOf_mem cs a.name f hf
           rw [← hfn]; exact hps f hfm
